@@ -2065,16 +2065,29 @@ impl Context {
                     None
                 };
 
-                if let Some(param_types) = param_fields {
-                    let fid_opt = match f_val.as_ref() {
+                let fid_opt = match f_val.as_ref() {
+                    Value::Function(fid) => Some(FunctionId(*fid as u64)),
+                    Value::Global(inner) => match inner.as_ref() {
                         Value::Function(fid) => Some(FunctionId(*fid as u64)),
-                        Value::Global(inner) => match inner.as_ref() {
-                            Value::Function(fid) => Some(FunctionId(*fid as u64)),
-                            _ => None,
-                        },
                         _ => None,
-                    };
+                    },
+                    _ => None,
+                };
+                // Every parameter has to be given by name, have a default value or be reachable
+                // by position. An incomplete record (`{a = x, ..}`) that leaves out a parameter
+                // WITHOUT a default value is not reported by the type checker: its fields are
+                // passed by position, like the elements of a tuple.
+                let param_fields = param_fields.filter(|param_types| {
+                    param_types.iter().enumerate().all(|(param_index, param)| {
+                        kvs.iter().any(|kv| kv.key == param.key)
+                            || param_index < kvs.len()
+                            || fid_opt
+                                .and_then(|fid| self.default_args_map.get(&fid))
+                                .is_some_and(|defs| defs.iter().any(|d| d.name == param.key))
+                    })
+                });
 
+                if let Some(param_types) = param_fields {
                     param_types
                         .iter()
                         .enumerate()
@@ -2309,6 +2322,28 @@ impl Context {
             Expr::ImcompleteRecord(fields) => {
                 // For incomplete records, we also aggregate the available fields
                 // The default values will be handled in the type system and during record construction
+                //
+                // The type checker leaves an incomplete record loosely typed (`Failure`). It is
+                // laid out as the record of the fields that are given (not as an anonymous
+                // tuple), so that a call matches them with the parameters by name and fills the
+                // parameters covered by `..` with their default values.
+                let ty = match ty.to_type() {
+                    Type::Failure | Type::Unknown if !fields.is_empty() => {
+                        let given_fields = fields
+                            .iter()
+                            .map(|field| RecordTypeField {
+                                key: field.name,
+                                ty: self
+                                    .typeenv
+                                    .infer_type(field.expr)
+                                    .unwrap_or(Type::Unknown.into_id()),
+                                has_default: false,
+                            })
+                            .collect::<Vec<_>>();
+                        Type::Record(given_fields).into_id()
+                    }
+                    _ => ty,
+                };
                 self.alloc_record_aggregate(fields, ty)
             }
             Expr::RecordUpdate(_, _) => {
